@@ -103,6 +103,8 @@ def funcs(ctx, module=None, stubs=None):
             fn.setdefault(nm_, getattr(math, nm_))
     fn.setdefault('deepcopy', deep_copy)
     fn.setdefault('copy', shallow_copy)
+    # names the harness only supplies by default: a repository function of the same name, called by bare name, takes precedence
+    fn['__defaults__'] = {k for k in fn if not k.startswith('__') and k not in (stubs or {})}
     fn.update(stubs or {})
     return fn
 
